@@ -93,6 +93,11 @@ def build_case(rng, root):
     ninc = rng.choice((0, 1, 1, 2, 2, 3, 5))
     nlines = rng.randint(0, 8)
     own = [carts.one_line(rng) for _ in range(nlines)]
+    for k in range(nlines):
+        # empty and white-space-only lines are lines of the cart like any other (also directly before / after a directive)
+        if rng.random() < 0.2:
+            own[k] = rng.choice((b'\n', b'\n', b' \n', b'\t\n', b'  \t \n'))
+            feats.add('blank_own_lines')
     if nlines and rng.random() < 0.35:
         # lines that mention #include without being a directive (a commented-out include, a string, a trailing remark): ordinary lines
         k = rng.randrange(nlines)
@@ -143,6 +148,10 @@ def build_case(rng, root):
                     code = rng.choice((b'-- cr\xc3\xa9dits \xe2\x9c\x93\n', b'-- \xff\x80\x8e raw glyphs\n', b's="\x97\xc3"\n')) + code
                     feats.add('lua_target_with_high_bytes')
             sel = None
+            if kind == 'lua' and rng.random() < 0.2:
+                # a selector after a .lua name: the file has no tabs to select from, its own lines are what is spliced
+                sel = rng.randint(0, 3)
+                feats.add('selector_after_lua_name')
             if kind != 'lua' and rng.random() < 0.6:
                 sel = rng.randint(0, tabs + 1) if tabs < 10 or rng.random() < 0.3 else rng.randint(10, tabs + 1)
                 feats.add('tab_selector_%s' % ('beyond' if sel > tabs else 'last' if sel == tabs else 'inner'))
@@ -208,7 +217,7 @@ def build_case(rng, root):
             if in_comment:
                 closing = [tl[-1]]
                 tl = tl[:-1]
-            if sel is not None:
+            if sel is not None and kind != 'lua':
                 tl = tab_lines(tl, sel)
             for alt in expected:
                 alt.extend(tl)
@@ -349,7 +358,7 @@ def gates(m, tier):
               'tab_selector_beyond', 'include_first_line', 'include_last_line', 'adjacent_includes', 'several_includes', 'nested_include_literal',
               'directive_whitespace_variant', 'missing_target', 'png_raw', 'png_compressed', 'includes_0', 'same_target_twice', 'cart_inside_carts_folder', 'name_with_embedded_extension', 'include_inside_block_comment',
               'cart_opened_through_symlinked_directory', 'lua_target_with_high_bytes', 'tab_selector_two_digits', 'cart_opened_as_bare_name_in_cwd',
-              'cart_opened_as_dot_slash_in_cwd', 'cart_opened_as_relative_from_parent', 'line_mentioning_include', 'mentioned_file_exists'):
+              'cart_opened_as_dot_slash_in_cwd', 'cart_opened_as_relative_from_parent', 'line_mentioning_include', 'mentioned_file_exists', 'blank_own_lines', 'selector_after_lua_name'):
         if f.get(k, 0) < 5:
             missed.append('%s seen %d times' % (k, f.get(k, 0)))
     if mon.get('splices_compared', 0) < 200:
